@@ -178,9 +178,7 @@ Definition acq_time8 (m : meas) : Z :=
   + frac8 (skipn 8 (m_time m)).
 
 (* ---- which strings time.strptime(date + etime[:8], "%Y-%m-%d%H:%M:%S") and
-   float(etime[8:]) accept.  Strict two-digit fields: the lenient forms
-   strptime also takes ("2024-3-5", "1:02:03", seconds 60/61) and float
-   syntax other than ".digits" are treated as malformed and never generated *)
+   float(etime[8:]) accept (exact on the domain [dt_shape_strict] below) *)
 Definition is_digit (c : Z) : bool := (48 <=? c) && (c <=? 57).
 Definition leap (y : Z) : bool :=
   ((y mod 4 =? 0) && negb (y mod 100 =? 0)) || (y mod 400 =? 0).
@@ -196,7 +194,7 @@ Definition valid_date (s : list Z) : bool :=
       && (let y := 1000 * dig y1 + 100 * dig y2 + 10 * dig y3 + dig y4 in
           let m := num2 m1 m2 in
           let d := num2 d1 d2 in
-          (1 <=? y) && (1 <=? m) && (m <=? 12)
+          (1900 <=? y) && (1 <=? m) && (m <=? 12)
           && (1 <=? d) && (d <=? days_in_month y m))
   | _ => false
   end.
@@ -212,13 +210,41 @@ Definition valid_time (s : list Z) : bool :=
   | [h1; h2; a; m1; m2; b; s1; s2] =>
       forallb is_digit [h1; h2; m1; m2; s1; s2]
       && (a =? 58) && (b =? 58)
-      && (num2 h1 h2 <? 24) && (num2 m1 m2 <? 60) && (num2 s1 s2 <? 60)
+      && (num2 h1 h2 <? 24) && (num2 m1 m2 <? 60) && (num2 s1 s2 <=? 61)
       && valid_frac (skipn 8 s)
   | _ => false
   end.
 
 Definition wf_datetime (m : meas) : bool :=
   valid_date (m_date m) && valid_time (m_time m).
+
+(* the domain on which the model of strptime/float is exact: "DDDD-DD-DD" with
+   a year from 1900, "DD:DD:DD" optionally followed by "." and digits only
+   (D a digit).  Inside it a string is accepted iff the numbers are a real
+   date/time (strptime takes seconds up to 61, mktime normalises them).
+   Outside it (one-digit fields "2024-3-5", "1:02:03", float syntax such as
+   ".5e1", "inf", "1_5") Python accepts more than [wf_datetime]; such strings
+   are not generated and the theorems about rejection exclude them. *)
+Definition shape_date (s : list Z) : bool :=
+  match s with
+  | [y1; y2; y3; y4; a; m1; m2; b; d1; d2] =>
+      forallb is_digit [y1; y2; y3; y4; m1; m2; d1; d2]
+      && (a =? 45) && (b =? 45)
+      && (1900 <=? 1000 * dig y1 + 100 * dig y2 + 10 * dig y3 + dig y4)
+  | _ => false
+  end.
+Definition shape_time (s : list Z) : bool :=
+  match firstn 8 s with
+  | [h1; h2; a; m1; m2; b; s1; s2] =>
+      forallb is_digit [h1; h2; m1; m2; s1; s2] && (a =? 58) && (b =? 58)
+      && (match skipn 8 s with
+          | [] => true
+          | c :: ds => (c =? 46) && forallb is_digit ds
+          end)
+  | _ => false
+  end.
+Definition dt_shape_strict (m : meas) : bool :=
+  shape_date (m_date m) && shape_time (m_time m).
 
 (* ---- ordering of the inputs ------------------------------------------- *)
 (* fixed code: key = (acquisition time, run index), compared as a tuple *)
@@ -256,6 +282,7 @@ Arguments Err {T}.
 Definition fdata (m : meas) (ti : Z) (f : Z) (old : list Z) : res (list Z) :=
   match lookup_col f (m_cols m) with
   | None => Err EKey                                   (* dsi[feat] *)
+  | Some [] => Err EValue      (* write_ndarray: "Empty data object" *)
   | Some col =>
       if kind f =? 1 then Ok (map (Z.add ti) col)
       else if kind f =? 2 then
@@ -330,9 +357,18 @@ Record joined := mk_joined {
 (* join(metadata=None): {"experiment": {"run index": 1}} *)
 Definition JOIN_RUN_INDEX : Z := 1.
 
-Definition event_count (cols : list (Z * list Z)) : Z :=
-  match cols with
+(* number of events of an input (length of its first column) *)
+Definition meas_len (m : meas) : Z :=
+  match m_cols m with
   | [] => 0
+  | (_, c) :: _ => Z.of_nat (length c)
+  end.
+
+(* experiment:event count of the output: rectified from the stored features;
+   without any feature it stays what export.hdf5 copied from the first input *)
+Definition event_count (m0 : meas) (cols : list (Z * list Z)) : Z :=
+  match cols with
+  | [] => meas_len m0
   | (_, c) :: _ => Z.of_nat (length c)
   end.
 
@@ -369,23 +405,45 @@ Definition join_gen (leb : meas -> meas -> bool)
                 j_time := m_time m0;
                 j_sample := m_sample m0;
                 j_run := JOIN_RUN_INDEX;
-                j_count := event_count cols |}
+                j_count := event_count m0 cols |}
       end
   end.
 
 Definition join_fixed := join_gen leb_num (py_prune_copy Z.eqb).
 
 (* ---- a measurement split into parts (for join-of-split) ----------------- *)
-Definition part_of (m : meas) (sel : list Z -> list Z) : meas :=
+Definition part_full (m : meas) (sel : list Z -> list Z) : meas :=
   {| m_date := m_date m; m_time := m_time m; m_run := m_run m;
      m_rate := m_rate m; m_innate := m_innate m; m_avail := m_avail m;
      m_cols := map (fun fc => (fst fc, sel (snd fc))) (m_cols m);
      m_logs := m_logs m; m_sample := m_sample m |}.
 
+(* number of events a selection keeps of n events *)
+Definition part_len (n : Z) (sel : list Z -> list Z) : nat :=
+  length (sel (repeat 0 (Z.to_nat n))).
+
+(* a part without events is a file without features: features_innate = [],
+   features = ["index"] (computed, of length 0) *)
+Definition part_of (m : meas) (n : Z) (sel : list Z -> list Z) : meas :=
+  if Nat.eqb (part_len n sel) 0 then
+    {| m_date := m_date m; m_time := m_time m; m_run := m_run m;
+       m_rate := m_rate m; m_innate := [];
+       m_avail := filter (fun f => kind f =? 4) (m_avail m);
+       m_cols := map (fun fc => (fst fc, []))
+                     (filter (fun fc => kind (fst fc) =? 4) (m_cols m));
+       m_logs := m_logs m; m_sample := m_sample m |}
+  else part_full m sel.
+
 (* s0 / s1: the first / last event is skipped (empty boundary image) *)
 Definition split_meas (m : meas) (n k : Z) (s0 s1 : bool) : list meas :=
-  map (fun ii => part_of m (select_from 0 (part_pred n k s0 s1 (Z.of_nat ii))))
+  map (fun ii => part_of m n (select_from 0 (part_pred n k s0 s1 (Z.of_nat ii))))
       (seq 0 (Z.to_nat (num_files n k))).
+
+(* no window consists of skipped boundary events only *)
+Definition no_empty_part (n k : Z) (s0 s1 : bool) : bool :=
+  forallb (fun ii => negb (Nat.eqb (part_len n (select_from 0
+                                      (part_pred n k s0 s1 (Z.of_nat ii)))) 0))
+          (seq 0 (Z.to_nat (num_files n k))).
 
 (* ======================================================================= *)
 (* specification                                                             *)
@@ -431,13 +489,15 @@ Definition spec_features (m0 : meas) (rest : list meas) : list Z :=
 
 (* well-formed input: every available feature has a column, innate features
    are available and distinct, the frame rate is not negative, date and time
-   are strings strptime/float accept *)
+   are strings strptime/float accept, no column is empty (the measurement
+   holds at least one event) *)
 Definition wf_meas (m : meas) : Prop :=
   NoDup (m_innate m)
   /\ (forall f, In f (m_innate m) -> In f (m_avail m))
   /\ (forall f, In f (m_avail m) -> lookup_col f (m_cols m) <> None)
   /\ 0 <= m_rate m
-  /\ wf_datetime m = true.
+  /\ wf_datetime m = true
+  /\ (forall f, lookup_col f (m_cols m) <> Some []).
 
 (* ======================================================================= *)
 (* interface used by the correspondence check (harness/c09.py)               *)
